@@ -148,7 +148,7 @@ func (fr *frame) enterLoop(lp *loop, edges []inEdge, label string) (string, *Sta
 	// entry state = merge of entry edges
 	reach, st := fr.mergeEdges(edges, label+"_entry")
 	reach = ft.define("reach_"+label, SBool, reach)
-	invs := fr.loopInvariants(lp)
+	invs := fr.loopInvariantsBound(lp)
 	// entry values of phis
 	entryVals := map[*ssa.Phi]Val{}
 	for _, ins := range b.Instrs {
@@ -163,9 +163,9 @@ func (fr *frame) enterLoop(lp *loop, edges []inEdge, label string) (string, *Sta
 		for phi, v := range entryVals {
 			fr.vals[phi] = v
 		}
-		goal, err := fr.evalBool(inv.E, st, fr.entry, lp.header)
+		goal, err := inv.eval(fr, st, lp)
 		if err != nil {
-			ft.e.contractError(inv, err)
+			ft.e.contractError(inv.Clause, err)
 			continue
 		}
 		fr.oblig("inv-entry", inv.Props, lp.pos, fmt.Sprintf("loop%d: %s", lp.ordinal, inv.name()), reach, goal)
@@ -195,7 +195,7 @@ func (fr *frame) enterLoop(lp *loop, edges []inEdge, label string) (string, *Sta
 	}
 	// assume invariants
 	for _, inv := range invs {
-		fact, err := fr.evalBool(inv.E, st, fr.entry, lp.header)
+		fact, err := inv.eval(fr, st, lp)
 		if err != nil {
 			continue
 		}
@@ -207,7 +207,7 @@ func (fr *frame) enterLoop(lp *loop, edges []inEdge, label string) (string, *Sta
 func (fr *frame) checkLoopStep(lp *loop, from *ssa.BasicBlock, cond string, st *State) {
 	ft := fr.ft
 	b := lp.header
-	invs := fr.loopInvariants(lp)
+	invs := fr.loopInvariantsBound(lp)
 	if len(invs) == 0 {
 		return
 	}
@@ -234,9 +234,9 @@ func (fr *frame) checkLoopStep(lp *loop, from *ssa.BasicBlock, cond string, st *
 		fr.vals[phi] = v
 	}
 	for _, inv := range invs {
-		goal, err := fr.evalBool(inv.E, st, fr.entry, lp.header)
+		goal, err := inv.eval(fr, st, lp)
 		if err != nil {
-			ft.e.contractError(inv, err)
+			ft.e.contractError(inv.Clause, err)
 			continue
 		}
 		fr.oblig("inv-step", inv.Props, lp.pos, fmt.Sprintf("loop%d: %s", lp.ordinal, inv.name()), cond, goal)
@@ -246,22 +246,61 @@ func (fr *frame) checkLoopStep(lp *loop, from *ssa.BasicBlock, cond string, st *
 	}
 }
 
+type boundInv struct {
+	*Clause
+	owner *frame // frame in whose scope the invariant is evaluated
+}
+
 func (fr *frame) loopInvariants(lp *loop) []*Clause {
-	if fr.fc == nil {
-		return nil
-	}
 	var out []*Clause
-	for _, c := range fr.fc.Invs {
-		if c.Loop == lp.ordinal {
-			if c.Header != "" {
-				line := fr.ft.e.lineText(lp.pos)
-				if !strings.Contains(line, c.Header) {
-					fr.ft.e.contractError(c, fmt.Errorf("loop %d of %s: header %q does not match source %q", lp.ordinal, fr.fn.Name(), c.Header, line))
-					continue
-				}
-			}
-			out = append(out, c)
+	for _, b := range fr.loopInvariantsBound(lp) {
+		if b.owner == fr {
+			out = append(out, b.Clause)
 		}
 	}
 	return out
+}
+
+// loopInvariantsBound: invariants from the function's own contract plus
+// invariants that a caller (an ancestor frame) supplies for the loops of this
+// inlined callee ("invariant in CALLEE N ...").
+func (fr *frame) loopInvariantsBound(lp *loop) []boundInv {
+	var out []boundInv
+	check := func(c *Clause) bool {
+		if c.Header != "" {
+			line := fr.ft.e.lineText(lp.pos)
+			if !strings.Contains(line, c.Header) {
+				fr.ft.e.contractError(c, fmt.Errorf("loop %d of %s: header %q does not match source %q", lp.ordinal, fr.fn.Name(), c.Header, line))
+				return false
+			}
+		}
+		return true
+	}
+	if fr.fc != nil {
+		for _, c := range fr.fc.Invs {
+			if c.Site == "" && c.Loop == lp.ordinal && check(c) {
+				out = append(out, boundInv{c, fr})
+			}
+		}
+	}
+	name := fr.fn.Name()
+	for a := fr.parent; a != nil; a = a.parent {
+		if a.fc == nil {
+			continue
+		}
+		for _, c := range a.fc.Invs {
+			if c.Site == name && c.Loop == lp.ordinal && check(c) {
+				out = append(out, boundInv{c, a})
+			}
+		}
+	}
+	return out
+}
+
+func (b boundInv) eval(fr *frame, st *State, lp *loop) (string, error) {
+	if b.owner == fr {
+		return fr.evalBool(b.E, st, fr.entry, lp.header)
+	}
+	// evaluated with the names of the supplying caller, in the current state
+	return b.owner.evalBool(b.E, st, b.owner.entry, nil)
 }
